@@ -48,6 +48,9 @@ VARIANTS = {
     # would be keyed on; -ffp-contract=off keeps the compiler from fusing anything by itself
     "std11": ("g++", ["-O1"] + STD_11 + COMMON),
     "arb_std11": ("clang++", ["-O1"] + STD_11 + COMMON),
+    "o0_fast": ("g++", ["-O0"] + STD_FAST + COMMON),
+    "o0_san": ("clang++", ["-O0", "-DNDEBUG"] + STD_SAN + COMMON),
+    "o0_std11": ("g++", ["-O0"] + STD_11 + COMMON),
     "fuzz": ("clang++", ["-O1", "-fsanitize=fuzzer,address,undefined", "-fno-sanitize-recover=undefined", "-DVP_FUZZ=1", "-std=gnu++20"] + COMMON),
 }
 LIBFLAGS_OVERRIDE = {"fuzz": ["-O1", "-fsanitize=fuzzer-no-link,address,undefined", "-fno-sanitize-recover=undefined", "-std=gnu++20"] + COMMON}
@@ -491,8 +494,21 @@ def run_cpp(prop, tier, seed, only=None):
                         rc2, out2 = replay_on(arb_exe, f["replay"])
                     except BuildError as e:
                         rc2, out2 = 2, str(e)[-300:]
+                    cfgname = {"fast": "asserts-on -std=gnu++17", "san": "-DNDEBUG -std=gnu++14", "std11": "asserts-on " + " ".join(STD_11)}[name]
+                    rc3 = None
+                    if rc2 != 1:
+                        # second arbitration: the finder's own compiler and configuration without optimisation.  Code
+                        # behind a macro only one compiler predefines (FP_FAST_FMA, __cpp_lib_* ...) exists in that
+                        # compiler's builds alone; if the failure is still there at -O0 it is the code, not the optimiser
+                        try:
+                            o0 = build_binary(prop, "o0_" + name)
+                            rc3, out3 = replay_on(o0, f["replay"])
+                        except BuildError as e:
+                            rc3, out3 = 2, str(e)[-300:]
                     if rc2 == 1:
-                        violations.append((f["replay"], "%s: %s | case: %s [only in the %s configuration; confirmed by both compilers]" % (f["key"], f["msg"], f["case"], {"fast": "asserts-on -std=gnu++17", "san": "-DNDEBUG -std=gnu++14", "std11": "asserts-on " + " ".join(STD_11)}[name])))
+                        violations.append((f["replay"], "%s: %s | case: %s [only in the %s configuration; confirmed by both compilers]" % (f["key"], f["msg"], f["case"], cfgname)))
+                    elif rc3 == 1:
+                        violations.append((f["replay"], "%s: %s | case: %s [only with %s in the %s configuration (a branch behind that compiler's predefined macros); reproduced without optimisation]" % (f["key"], f["msg"], f["case"], VARIANTS[name][0], cfgname)))
                     else:
                         errors.append("toolchain disagreement on %s (found by %s binary, other binary rc=%d, arbitration rc=%d): %s" % (f["replay"], name, rc, rc2, f["msg"]))
     # --- 3b. extra configuration programs (stand-alone, print FAIL lines)
